@@ -4,6 +4,10 @@ use chrono::{DateTime, Duration, NaiveDateTime, Utc};
 /// current time in milliseconds since unix epoch
 ///
 pub fn now() -> i64 {
+    #[cfg(discret_verif)]
+    if let Some(t) = crate::verif::clock_override() {
+        return t;
+    }
     let dt = Utc::now();
     dt.timestamp_millis()
 }
